@@ -186,9 +186,10 @@ def shard_main(args):
                     try:
                         run_one(check, last["case"], Stats(), open_keys)
                         if last["v"].extra.get("nondeterministic"):
-                            # an observation made with real, free-running threads: the observed history itself is the
-                            # evidence (it is part of the violation's detail); it cannot be forced to repeat
-                            last["v"].detail += " [observed once with free-running threads; not reproducible on demand]"
+                            # an observation that depends on more than the case (real free-running threads, or state a
+                            # long-lived engine accumulated over earlier cases): the observed values are the evidence
+                            # (they are in the violation's detail); the case alone cannot force it to repeat
+                            last["v"].detail += " [observed in this run's history; not reproducible from the case alone]"
                             result["failure"] = _failure(check, last["case"], last["v"])
                         else:
                             result["harness_error"] = "failure did not reproduce on direct re-run (flaky): " + str(last["v"])[:500]
